@@ -178,7 +178,8 @@ def raw_mat(a):
 
 
 GLUE_OPS = ('solve_left', 'pluq_solve_left', 'kernel', 'echelonize_pluq')
-EXACT_OPS = ('ple', 'pluq', 'ple_russian', 'pluq_russian', 'trsm_ll', 'trsm_ul', 'trsm_ur', 'trsm_lr', 'trtri_upper')
+EXACT_OPS = ('ple', 'pluq', 'ple_russian', 'pluq_russian', 'trsm_ll', 'trsm_ul', 'trsm_ur', 'trsm_lr', 'trtri_upper',
+             'echelonize', 'echelonize_m4ri', 'echelonize_m4ri_h', 'inv_m4ri')
 
 
 def exact_line(cid, line, cfg):
@@ -189,6 +190,17 @@ def exact_line(cid, line, cfg):
     try:
         if op.startswith('trsm_'):
             return '%s.glue %s_exact %s %s %d %d %d %d' % (cid, op, raw_mat(args[0]), raw_mat(args[1]), cfg['l1'], cfg['l2'], cfg['l3'], cfg['sse2'])
+        c3 = '%d %d %d' % (cfg['l1'], cfg['l2'], cfg['l3'])
+        if op == 'echelonize':
+            return '%s.glue echelonize_exact %s %s %s' % (cid, raw_mat(args[0]), args[1][1], c3)
+        if op == 'echelonize_m4ri':
+            return '%s.glue echelonize_m4ri_exact0 %s %s %s %s' % (cid, raw_mat(args[0]), args[1][1], args[2][1], c3)
+        if op == 'echelonize_m4ri_h':
+            return '%s.glue echelonize_m4ri_h_exact %s %s %s %s %s' % (cid, raw_mat(args[0]), args[1][1], args[2][1], args[3][1], c3)
+        if op == 'inv_m4ri':
+            if args[0] != ('v', 'null'):
+                return None      # result written into a supplied (possibly windowed) destination: value compared by the first phase
+            return '%s.glue inv_m4ri_exact %s %s' % (cid, raw_mat(args[1]), c3)
         if op == 'trtri_upper':
             return '%s.glue %s_exact %s %d %d %d %d' % (cid, op, raw_mat(args[0]), cfg['l1'], cfg['l2'], cfg['l3'], cfg['sse2'])
         pq = ' '.join('p %d %s' % (len(a[1]), ' '.join(a[1])) for a in args[1:3])
@@ -331,6 +343,24 @@ def correspond(build, lines, harness_args=(), env=None, canon=None, model_lines=
       diag_bad  : frame / leak diagnostics of the harness"""
     t0 = time.time()
     hr = run_exe(build.exe, lines, harness_args, env)
+    # a call that never returned: the watchdog of the harness printed "<id> hang" and left with status 77 -- carry on
+    # behind that line (at most a few times; the hanging lines stay in the output as their fate)
+    rest = lines
+    for _ in range(8):
+        if hr.returncode != 77:
+            break
+        m = re.findall(r'^(\S+) hang$', hr.stdout, re.M)
+        if not m:
+            break
+        ids = [l.split(' ', 1)[0] for l in rest]
+        if m[-1] not in ids:
+            break
+        rest = rest[ids.index(m[-1]) + 1:]
+        h2 = run_exe(build.exe, rest, harness_args, env) if rest else None
+        if h2 is None:
+            hr = subprocess.CompletedProcess(hr.args, 0, hr.stdout, hr.stderr)
+            break
+        hr = subprocess.CompletedProcess(h2.args, h2.returncode, hr.stdout + h2.stdout, hr.stderr + h2.stderr)
     th = time.time() - t0
     t0 = time.time()
     mr = run_exe(MODEL_EXE, model_lines if model_lines is not None else lines)
@@ -350,7 +380,9 @@ def correspond(build, lines, harness_args=(), env=None, canon=None, model_lines=
                 if gl:
                     chk_lines.append(gl)
             if main.startswith('ok') and byid0[cid].split(' ', 2)[1] in EXACT_OPS:
-                chk_lines.append(exact_line(cid, byid0[cid], build.cfg))
+                el = exact_line(cid, byid0[cid], build.cfg)
+                if el:
+                    chk_lines.append(el)
     hchk = {}
     if chk_lines:
         cr = run_exe(MODEL_EXE, chk_lines)
